@@ -82,3 +82,54 @@ Proof.
   rewrite (dd_tags_of_tags_text lh t1 H1), (dd_tags_of_tags_text lh t2 H2).
   apply wire_fp_reorder. now constructor.
 Qed.
+(* ------------------------------------------------------------------ the Bernstein fingerprint type has 32 bits *)
+Lemma w32_range x : 0 <= w32 x < 4294967296.
+Proof.
+  unfold w32. change 4294967295 with (Z.ones 32). rewrite Z.land_ones by lia. apply Z.mod_pos_bound. lia.
+Qed.
+
+Lemma lxor_range a b : 0 <= a < 4294967296 -> 0 <= b < 4294967296 -> 0 <= Z.lxor a b < 4294967296.
+Proof.
+  intros Ha Hb. assert (H0 : 0 <= Z.lxor a b) by (apply Z.lxor_nonneg; split; lia). split; [exact H0|].
+  destruct (Z.eq_dec (Z.lxor a b) 0) as [E|Hn]; [rewrite E; lia|].
+  change 4294967296 with (2 ^ 32). apply (Z.log2_lt_pow2 (Z.lxor a b) 32); [lia|].
+  eapply Z.le_lt_trans; [apply Z.log2_lxor; lia|].
+  apply Z.max_lub_lt.
+  - destruct (Z.eq_dec a 0) as [->|]; [cbn; lia|]. apply Z.log2_lt_pow2; lia.
+  - destruct (Z.eq_dec b 0) as [->|]; [cbn; lia|]. apply Z.log2_lt_pow2; lia.
+Qed.
+
+Lemma le_bytes_range n : forall k, Forall (fun b => 0 <= b < 256) (le_bytes_z n k).
+Proof.
+  induction n as [|n IH]; intros k; cbn [le_bytes_z]; constructor; [apply Z.mod_pos_bound; lia|apply IH].
+Qed.
+
+Lemma djb_fold_range bs : Forall (fun b => 0 <= b < 256) bs -> forall h, 0 <= h < 4294967296 ->
+  0 <= fold_left (fun h b => Z.lxor (w32 (h * 33)) b) bs h < 4294967296.
+Proof.
+  induction 1 as [|b bs Hb _ IH]; intros h Hh; cbn [fold_left]; [assumption|].
+  apply IH. apply lxor_range; [apply w32_range|lia].
+Qed.
+
+Theorem fin_djb_range d : 0 <= fin_djb d < 4294967296.
+Proof.
+  destruct d as [[d0 d1] d2]. unfold fin_djb. apply djb_fold_range; [|lia].
+  apply Forall_rev. repeat (apply Forall_app; split); apply le_bytes_range.
+Qed.
+
+(* ------------------------------------------------------------------ ... so "different label sets get different fingerprints"
+   fails under FingerPrintType = Bernstein: two one-label sets found by a birthday search over 22 349 candidates
+   (seriesid --mode djbsearch), real city.CH64 values (compared with the code on every run). Under CityHash the two sets
+   get different fingerprints. *)
+Definition djb_tbl : list (string * Z) :=
+  [("app"%string, 12576353548093493342); ("s10584"%string, 14134554934915119330); ("s22348"%string, 187971378227650380)].
+Definition djb_a : list label := [("app", "s10584")]%string.
+Definition djb_b : list label := [("app", "s22348")]%string.
+Theorem bernstein_fingerprints_collide :
+  ~ Permutation djb_a djb_b /\
+  fingerprint_djb_tbl djb_tbl djb_a = fingerprint_djb_tbl djb_tbl djb_b /\
+  fingerprint_tbl djb_tbl djb_a <> fingerprint_tbl djb_tbl djb_b.
+Proof.
+  split; [|split; [vm_compute; reflexivity|vm_compute; discriminate]].
+  intros H. apply Permutation_length_1 in H. discriminate H.
+Qed.
